@@ -141,6 +141,176 @@ let () = register "table" (fun args ->
     | _ -> "-" in
   (model, oracle))
 
+(* ---- merged view: C03 (and C11 on stacks) ---- *)
+let refs_of_records rs = L.filter_map (function RecCodec.RecRef r -> Some r | _ -> None) rs
+let logs_of_records rs = L.filter_map (function RecCodec.RecLog l -> Some l | _ -> None) rs
+
+let parse_table cfg (s : string) =
+  match S.split_on_char '~' s with
+  | [mn; mx; refs; logs] -> (n_of_string mn, n_of_string mx, parse_list parse_ref refs, parse_list parse_log logs)
+  | _ -> failwith "bad table"
+
+(* model writer -> model reader -> decoded table *)
+let model_table cfg (mn, mx, refs, logs) : Compact.table option =
+  match Writer.write_table deflate cfg mn mx refs logs with
+  | Result.Ok (false, data) ->
+    (match Reader.rd_open data with
+     | Result.Ok rd ->
+       (match Reader.scan_refs inflate rd, Reader.scan_logs inflate rd with
+        | Result.Ok rr, Result.Ok ll ->
+          Some { Compact.t_min = rd.Reader.rd_min; t_max = rd.Reader.rd_max; t_sha256 = rd.Reader.rd_sha256;
+                 t_refs = refs_of_records rr; t_logs = logs_of_records ll }
+        | _ -> None)
+     | _ -> None)
+  | _ -> None
+
+let spec_table cfg (mn, mx, refs, logs) : Compact.table option =
+  let hs = if cfg.Writer.c_sha256 then 32 else 20 in
+  match norm_logs cfg.Writer.c_exact_log hs logs with
+  | None -> None
+  | Some nl -> Some { Compact.t_min = mn; t_max = mx; t_sha256 = cfg.Writer.c_sha256; t_refs = refs; t_logs = nl }
+
+let merged_query suppress (ts : Compact.table list) q =
+  match S.split_on_char ':' q with
+  | ["sr"; k] -> show_refs (Compact.merged_refs suppress ts (bytes_of_hex k))
+  | ["sl"; k; u] -> show_logs (Compact.merged_logs suppress ts (Records.log_key_of (bytes_of_hex k) (n_of_string u)))
+  | ["rf"; o] -> show_refs (Compact.merged_refs_for suppress ts (bytes_of_hex o))
+  | _ -> "badquery"
+
+(* specification: overlay / view of the source records *)
+let spec_merged_query suppress (ts : Compact.table list) q =
+  let refs = L.map (fun t -> t.Compact.t_refs) ts and logs = L.map (fun t -> t.Compact.t_logs) ts in
+  let ov_r = if suppress then Overlay.view Records.ref_key Records.ref_is_del refs else Overlay.overlay Records.ref_key refs in
+  let ov_l = if suppress then Overlay.view Records.log_key Records.log_is_del logs else Overlay.overlay Records.log_key logs in
+  spec_query ov_r ov_l q
+
+let rec all_some = function [] -> Some [] | None :: _ -> None | Some x :: t -> (match all_some t with None -> None | Some r -> Some (x :: r))
+
+let () = register "merged" (fun args ->
+  let f = S.split_on_char '|' (L.nth args 0) in
+  let suppress = L.nth f 0 = "1" in
+  let cfg = parse_cfg (L.nth f 1) in
+  let tabs = L.map (parse_table cfg) (split_on '#' (L.nth f 2)) in
+  let qs = split_on ',' (L.nth f 3) in
+  let model = match all_some (L.map (model_table cfg) tabs) with
+    | None -> "model-table-failed"
+    | Some ts ->
+      if not (Compact.new_merged_ok cfg.Writer.c_sha256 ts) then "merged-err"
+      else S.concat "|" ("ok" :: L.map (merged_query suppress ts) qs) in
+  let oracle =
+    if L.length args < 2 then "-" else
+    match S.split_on_char '|' (L.nth args 1), all_some (L.map (spec_table cfg) tabs) with
+    | "ok" :: qres, Some ts ->
+      let rec chk qs rs = match qs, rs with
+        | [], [] -> "ok"
+        | q :: qt, r :: rt -> if spec_merged_query suppress ts q = r then chk qt rt else "bad:query " ^ q
+        | _ -> "bad:query-count" in
+      chk qs qres
+    | "panic" :: _, _ -> "bad:panic"
+    | _ -> "-" in
+  (model, oracle))
+
+(* ---- sequential stack histories: C07 C13 C12 ---- *)
+let show_status = function StackSeq.SOk -> "ok" | StackSeq.SRejected -> "rejected" | StackSeq.SErr -> "err"
+
+let show_state (st : (Compact.table * coq_N) list) status =
+  let ts = L.map fst st in
+  S.concat "^" [ show_status status;
+                 S.concat "," (L.map (fun t -> string_of_n t.Compact.t_min ^ "-" ^ string_of_n t.Compact.t_max) ts);
+                 show_refs (Compact.stack_refs ts); show_logs (Compact.stack_logs ts) ]
+
+type hop = HAdd of bool * Records.ref_record list * Records.log_record list
+         | HCompact of int * int | HCompactAll | HExpire of Compact.expiry
+
+let parse_hop (s : string) : hop =
+  match S.split_on_char ':' s with
+  | "A" :: auto :: rest ->
+    let body = S.concat ":" rest in
+    (match S.split_on_char '~' body with
+     | [r; l] -> HAdd (auto = "1", parse_list parse_ref r, parse_list parse_log l)
+     | _ -> failwith "bad add")
+  | ["C"; f; l] -> HCompact (int_of_string f, int_of_string l)
+  | ["CA"] -> HCompactAll
+  | ["CE"; t; mx; mn] -> HExpire { Compact.e_time = n_of_string t; e_max_index = n_of_string mx; e_min_index = n_of_string mn }
+  | _ -> failwith "bad op"
+
+let () = register "history" (fun args ->
+  let f = S.split_on_char '|' (L.nth args 0) in
+  let cfg = parse_cfg (L.nth f 0) in
+  let name_check = L.nth f 1 = "1" in
+  let ops = L.map parse_hop (split_on '!' (L.nth f 2)) in
+  let hs = if cfg.Writer.c_sha256 then 32 else 20 in
+  (* model run *)
+  let st = ref [] in
+  let outs = L.map (fun op ->
+      let (st', status) = match op with
+        | HAdd (auto, refs, logs) -> StackSeq.stack_add deflate inflate cfg name_check auto refs logs !st
+        | HCompact (a, b) -> StackSeq.stack_compact deflate inflate cfg (nat_of_int a) (nat_of_int b) None !st
+        | HCompactAll -> StackSeq.stack_compact_all deflate inflate cfg None !st
+        | HExpire e -> StackSeq.stack_compact_all deflate inflate cfg (Some e) !st in
+      st := st'; show_state st' status) ops in
+  let model = S.concat "!" outs in
+  (* oracle on the implementation's observations *)
+  let oracle =
+    if L.length args < 2 then "-" else
+    let obs = L.map (fun o -> S.split_on_char '^' o) (split_on '!' (L.nth args 1)) in
+    let rec go prev_refs prev_logs ops obs i =
+      match ops, obs with
+      | [], _ | _, [] -> "ok"
+      | op :: ot, [status; _tabs; refs; logs] :: bt ->
+        if status = "panic" then Printf.sprintf "bad:panic at op %d" i else
+        let r = if refs = "err" || refs = "panic" then None else Some (parse_list parse_ref refs) in
+        let l = if logs = "err" || logs = "panic" then None else Some (parse_list parse_log logs) in
+        (match r, l with
+         | Some r, Some l ->
+           let live_names = L.map (fun x -> x.Records.r_name) r in
+           let verdict =
+             match op with
+             | HCompact _ | HCompactAll ->
+               if status <> "ok" then "ok" (* a failed compaction must still leave the view alone *)
+               else "ok"
+             | _ -> "ok" in
+           let verdict =
+             if verdict <> "ok" then verdict else
+             match op with
+             | HCompact _ | HCompactAll ->
+               if show_refs r <> show_refs prev_refs then Printf.sprintf "bad:compaction changed refs at op %d" i
+               else if show_logs l <> show_logs prev_logs then Printf.sprintf "bad:compaction changed logs at op %d" i
+               else "ok"
+             | HExpire e ->
+               if show_refs r <> show_refs prev_refs then Printf.sprintf "bad:expiry changed refs at op %d" i
+               else if status = "ok" && show_logs l <> show_logs (L.filter (Compact.keep_log (Some e)) prev_logs)
+               then Printf.sprintf "bad:expiry kept/removed wrong entries at op %d" i
+               else if status <> "ok" && show_logs l <> show_logs prev_logs then Printf.sprintf "bad:failed expiry changed logs at op %d" i
+               else "ok"
+             | HAdd (_, refs, logs) ->
+               let tx = L.map (fun x -> (x.Records.r_name, Records.ref_is_del x)) refs in
+               let would_conflict = not (Refname.conflict_free_b (Refname.apply_tx (L.map (fun x -> x.Records.r_name) prev_refs) tx)) in
+               if status = "rejected" then
+                 (if not name_check then Printf.sprintf "bad:rejected without name check at op %d" i
+                  else if not would_conflict then Printf.sprintf "bad:legal transaction refused at op %d" i
+                  else if show_refs r <> show_refs prev_refs || show_logs l <> show_logs prev_logs then Printf.sprintf "bad:rejected transaction had an effect at op %d" i
+                  else "ok")
+               else if status = "ok" then
+                 (if name_check && would_conflict then Printf.sprintf "bad:conflicting transaction committed at op %d" i else
+                  match norm_logs cfg.Writer.c_exact_log hs logs with
+                  | None -> Printf.sprintf "bad:multi-line message accepted at op %d" i
+                  | Some nl ->
+                    let er = L.filter (Overlay.live Records.ref_is_del) (Overlay.merge2 Records.ref_key prev_refs refs) in
+                    let el = L.filter (Overlay.live Records.log_is_del) (Overlay.merge2 Records.log_key prev_logs nl) in
+                    if show_refs r <> show_refs er then Printf.sprintf "bad:refs after add differ from applying the transaction at op %d" i
+                    else if show_logs l <> show_logs el then Printf.sprintf "bad:logs after add differ from applying the transaction at op %d" i
+                    else "ok")
+               else (* err *)
+                 (if show_refs r <> show_refs prev_refs || show_logs l <> show_logs prev_logs then Printf.sprintf "bad:failed add had an effect at op %d" i else "ok") in
+           let verdict = if verdict = "ok" && name_check && not (Refname.conflict_free_b live_names)
+             then Printf.sprintf "bad:live names conflict after op %d" i else verdict in
+           if verdict <> "ok" then verdict else go r l ot bt (i + 1)
+         | _ -> Printf.sprintf "bad:view unreadable after op %d" i)
+      | _ -> "bad:observation-format" in
+    go [] [] ops obs 0 in
+  (model, oracle))
+
 let () =
   try
     while true do
